@@ -301,6 +301,22 @@ pub mod vharness {
             ids.into_iter().map(|id| (id, cold.fetch_metadata(id).unwrap_or_default())).collect()
         }
 
+        /// Ground truth with vectors: (global id, stored vector, full metadata), sorted by id.
+        pub fn all_docs_full(&self) -> Vec<(u64, Vec<f32>, HashMap<String, String>)> {
+            let cold = self.state.engine.cold_tier();
+            let mut ids = cold.scan(|_| true);
+            ids.sort_unstable();
+            ids.dedup();
+            ids.into_iter().map(|id| (id, cold.fetch_document(id).unwrap_or_default(), cold.fetch_metadata(id).unwrap_or_default())).collect()
+        }
+
+        /// Ids present in the hot-tier mirror.
+        pub fn hot_ids(&self) -> Vec<u64> {
+            let mut v = self.state.engine.hot_tier().scan(|_| true);
+            v.sort_unstable();
+            v
+        }
+
         pub fn engine(&self) -> &Arc<TieredEngine> {
             &self.state.engine
         }
